@@ -207,6 +207,18 @@ class MemPath:
     def exists(self):
         return self.name in self.fs
 
+    def with_name(self, nm):
+        return MemPath(nm, self.fs)
+
+    def replace(self, target):
+        self.fs[target.name] = self.fs.pop(self.name)
+
+    def unlink(self, missing_ok=False):
+        if self.name in self.fs:
+            del self.fs[self.name]
+        elif not missing_ok:
+            raise FileNotFoundError(self.name)
+
     def open(self, mode="r"):
         if "w" in mode:
             f = io.StringIO()
